@@ -164,9 +164,10 @@ type Track struct {
 	EpochBreak    bool
 
 	// last user disturbance kind (release / rollback / scale / plan-edit / jump / delete / disable / pause)
-	LastDisturbance string
-	RequestState    v1beta1.CanaryStepState // sub-state the current step was in when the controller acted on the user's last jump / plan edit ("" none)
-	Released        bool                    // the first template change (the release itself) happened
+	LastDisturbance    string
+	EditedUpgradedStep bool                    // a plan edit changed the replicas of the current step after that step's upgrade (until it is left in order)
+	RequestState       v1beta1.CanaryStepState // sub-state the current step was in when the controller acted on the user's last jump / plan edit ("" none)
+	Released           bool                    // the first template change (the release itself) happened
 	// since the Rollout was last Healthy:
 	Superseded             bool // a template change hit a progressing release
 	Scaled                 bool // the workload was scaled
@@ -218,13 +219,16 @@ func (w *World) PodsOfRevision(s Scenario, rev string) int {
 
 // Baseline is the user-owned configuration recorded before the release.
 type Baseline struct {
-	ServiceSelector map[string]string
-	IngressSpec     any
-	IngressAnn      map[string]string
-	RouteRules      any
-	WorkloadPaused  bool
-	Partition       string
-	DeployStrategy  any
+	ServiceSelector  map[string]string
+	IngressSpec      any
+	IngressAnn       map[string]string
+	RouteRules       any
+	WorkloadPaused   bool
+	Partition        string
+	DeployStrategy   any
+	MinReadySeconds  int32
+	ProgressDeadline *int32
+	HPATarget        string
 }
 
 const trackKey = "track"
@@ -281,9 +285,22 @@ func (w *World) captureBaseline(s Scenario) *Baseline {
 			d := o.(*appsv1.Deployment)
 			b.WorkloadPaused = d.Spec.Paused
 			b.DeployStrategy = normalizedAny(d.Spec.Strategy)
+			b.MinReadySeconds = d.Spec.MinReadySeconds
+			b.ProgressDeadline = d.Spec.ProgressDeadlineSeconds
 		}
 	}
+	if o := w.Get(GVKHPA, s.Namespace, s.Name+"-hpa"); o != nil {
+		b.HPATarget = hpaTarget(o)
+	}
 	return b
+}
+
+func hpaTarget(o client.Object) string {
+	m, _ := toMapAny(o)
+	spec, _ := m["spec"].(map[string]any)
+	ref, _ := spec["scaleTargetRef"].(map[string]any)
+	name, _ := ref["name"].(string)
+	return name
 }
 
 func normalizedSpec(o any) any {
@@ -379,7 +396,14 @@ func (m *stdMonitor) checkNoVoid(w *World, wr *Write) {
 		o := w.Get(GVKService, s.Namespace, s.CanaryServiceName())
 		switch {
 		case o == nil:
-			w.Violate("C04", "c04-route-to-missing-canary-service", "after %s: gateway routes (weight=%d match=%q) to canary Service %s which does not exist", wr, rt.Weight, rt.Match, s.CanaryServiceName())
+			where := "rollout-gone"
+			if ro := w.Rollout(s.Namespace, s.Name); ro != nil {
+				where = strings.ToLower(string(ro.Status.Phase))
+				if ro.Status.Phase == v1beta1.RolloutPhaseProgressing {
+					where = strings.ToLower(progressingReason(ro))
+				}
+			}
+			w.Violate("C04", "c04-route-to-missing-canary-service-"+s.Style+"-"+where, "after %s: gateway routes (weight=%d match=%q) to canary Service %s which does not exist", wr, rt.Weight, rt.Match, s.CanaryServiceName())
 		case o.GetDeletionTimestamp() != nil:
 			w.Violate("C04", "c04-route-to-deleting-canary-service", "after %s: gateway routes to canary Service being deleted", wr)
 		default:
@@ -706,6 +730,9 @@ func (m *stdMonitor) armCancel(w *World, wr *Write, bt, at *corev1.PodTemplateSp
 func (m *stdMonitor) checkCancelOrder(w *World, wr *Write) {
 	t, s := m.t, m.t.S
 	c := t.Cancel
+	if c != nil && c.Kind == "supersede" && s.Style == "bluegreen" {
+		return // judged by the refusal oracle in onWorkload
+	}
 	if c == nil || !c.HadTraffic || wr.Actor == ActorUser || wr.Actor == ActorEnv || wr.Actor == ActorGC || wr.Actor == ActorHarness {
 		return
 	}
@@ -773,6 +800,11 @@ func canaryRevOf(ro *v1beta1.Rollout) string {
 	return ro.Status.GetCanaryRevision()
 }
 
+func compactJSON(v any) string {
+	b, _ := json.Marshal(v)
+	return string(b)
+}
+
 func workloadPaused(o client.Object) bool {
 	switch t := o.(type) {
 	case *kruisev1alpha1.CloneSet:
@@ -797,6 +829,7 @@ func (m *stdMonitor) onRolloutCancel(w *World, wr *Write, before, after *v1beta1
 		t.cancelUnjudged = false
 		t.Superseded, t.Scaled, t.ChangedWhileFinalising = false, false, false
 		t.RequestState = ""
+		t.EditedUpgradedStep = false
 		if o := w.workloadObject(s); o != nil {
 			t.StableTpl = templateOf(o).DeepCopy()
 		}
@@ -884,6 +917,14 @@ func (m *stdMonitor) onRollout(w *World, wr *Write) {
 		if !reflect.DeepEqual(before.Spec.Strategy, after.Spec.Strategy) {
 			// plan edit (hash change) or pause toggle
 			if !reflect.DeepEqual(stepsOf(before), stepsOf(after)) {
+				if bs := before.Status.GetSubStatus(); bs != nil {
+					k := int(bs.CurrentStepIndex)
+					bsteps, asteps := stepsOf(before), stepsOf(after)
+					if k >= 1 && k <= len(bsteps) && k <= len(asteps) && !reflect.DeepEqual(bsteps[k-1].Replicas, asteps[k-1].Replicas) &&
+						bs.CurrentStepState != v1beta1.CanaryStepStateInit && bs.CurrentStepState != v1beta1.CanaryStepStateUpgrade {
+						t.EditedUpgradedStep = true
+					}
+				}
 				if !t.OutstandingReq {
 					t.RequestState = ""
 				}
@@ -962,6 +1003,7 @@ func (m *stdMonitor) onRollout(w *World, wr *Write) {
 		if sequential && !t.OutstandingReq {
 			m.checkAdvance(w, wr, after, bIdx)
 			t.RequestState = "" // the step reached by the last request has been left in order
+			t.EditedUpgradedStep = false
 		} else if !t.OutstandingReq && !sequential {
 			w.Violate("C02", "c02-cursor-moved-without-request", "%s: step cursor moved %d/%s -> %d/%s without an explicit user request", wr, bIdx, bState, aIdx, aState)
 		}
@@ -1222,6 +1264,19 @@ func (m *stdMonitor) exposure(w *World, obj any) (exp int, replicas int, ok bool
 			n := m.workloadReplicas(w)
 			return int(pointer.Int32Deref(o.Spec.Replicas, 0)), n, true
 		}
+		// blue-green: the Deployment itself, un-paused with maxUnavailable 0 and pods that never
+		// become available, runs maxSurge pods of the new revision
+		if s.Style == "bluegreen" && o.Name == s.Name {
+			n := int(pointer.Int32Deref(o.Spec.Replicas, 0))
+			if _, ok := o.Annotations[util.BatchReleaseControlAnnotation]; !ok || o.Spec.Paused || o.Spec.Strategy.RollingUpdate == nil {
+				return 0, n, true
+			}
+			surge := scaledRoundUp(o.Spec.Strategy.RollingUpdate.MaxSurge, n, 0)
+			if surge > n {
+				surge = n
+			}
+			return surge, n, true
+		}
 	}
 	return 0, 0, false
 }
@@ -1264,6 +1319,21 @@ func (m *stdMonitor) onWorkload(w *World, wr *Write) {
 	}
 	if wr.Actor != ActorBatchRelease || wr.Verb == "status" {
 		return
+	}
+	// C10: a blue-green release refuses supersession: once the user has published a third
+	// template the controllers must not let the workload roll (un-pause it, widen its surge)
+	if c := t.Cancel; c != nil && c.Kind == "supersede" && s.Style == "bluegreen" && wr.GVK == GVKDeployment && wr.Before != nil && wr.Key.Name == s.Name {
+		b, a := wr.Before.(*appsv1.Deployment), wr.After.(*appsv1.Deployment)
+		surge := func(d *appsv1.Deployment) int {
+			if d.Spec.Strategy.RollingUpdate == nil {
+				return 0
+			}
+			return scaledRoundUp(d.Spec.Strategy.RollingUpdate.MaxSurge, int(pointer.Int32Deref(d.Spec.Replicas, 0)), 0)
+		}
+		// (judged when pods of the superseded revision existed: that is what makes it a third version)
+		if c.NewPods > 0 && !a.Spec.Paused && (b.Spec.Paused || surge(a) > surge(b)) {
+			w.Violate("C10", "c10-bluegreen-supersession-not-refused", "%s: a newer revision was published at #%d during a blue-green release; instead of refusing it the controllers let the workload roll it (paused %v -> %v, strategy %s -> %s)", wr, c.Seq, b.Spec.Paused, a.Spec.Paused, compactJSON(b.Spec.Strategy), compactJSON(a.Spec.Strategy))
+		}
 	}
 	exp, n, ok := m.exposure(w, wr.After)
 	if !ok {
@@ -1365,6 +1435,9 @@ func (m *stdMonitor) onNetwork(w *World, wr *Write) {
 		default:
 			sig += "-request-after-step-upgraded"
 		}
+		if t.EditedUpgradedStep {
+			sig += "-replicas-of-upgraded-step-edited"
+		}
 		w.Violate("C03", sig, "%s: canary share (weight=%d match=%q) installed for step %d before its pods were reported ready", wr, rt.Weight, rt.Match, k)
 	}
 	if t.PausedSince > 0 && t.PausedSince <= t.ReconcileStart && progressingReason(ro) == v1alpha1.ProgressingReasonInRolling {
@@ -1434,6 +1507,17 @@ func (r *Run) CheckRestored() []string {
 		}
 		if got := normalizedAny(d.Spec.Strategy); !reflect.DeepEqual(got, b.DeployStrategy) {
 			out = append(out, fmt.Sprintf("Deployment strategy is %v, user had %v", got, b.DeployStrategy))
+		}
+		if d.Spec.MinReadySeconds != b.MinReadySeconds {
+			out = append(out, fmt.Sprintf("Deployment minReadySeconds=%d, user had %d", d.Spec.MinReadySeconds, b.MinReadySeconds))
+		}
+		if pointer.Int32Deref(d.Spec.ProgressDeadlineSeconds, -1) != pointer.Int32Deref(b.ProgressDeadline, -1) {
+			out = append(out, fmt.Sprintf("Deployment progressDeadlineSeconds=%d, user had %d", pointer.Int32Deref(d.Spec.ProgressDeadlineSeconds, -1), pointer.Int32Deref(b.ProgressDeadline, -1)))
+		}
+		if o := w.Get(GVKHPA, s.Namespace, s.Name+"-hpa"); o != nil && b.HPATarget != "" {
+			if got := hpaTarget(o); got != b.HPATarget {
+				out = append(out, fmt.Sprintf("HPA scaleTargetRef.name=%q, user had %q", got, b.HPATarget))
+			}
 		}
 		for _, k := range []string{v1alpha1.DeploymentStrategyAnnotation, v1beta1.OriginalDeploymentStrategyAnnotation} {
 			if _, ok := d.Annotations[k]; ok {
